@@ -194,9 +194,21 @@ def run(ctx) -> None:
   sc = ctx.index.need_class('vizier._src.pyvizier.oss.study_config.StudyConfig')
   pp = sc.methods['_pytrial_parameters']
   g = cfgmod.CFG(pp.node)
-  chk = [n for n in g.nodes if n.kind == 'test' and 'len(trial_external_values) != len(pytrial.parameters)' in unparse(n.ast, 0)
-         or (n.kind == 'test' and 'len(' in unparse(n.ast, 0) and 'pytrial.parameters' in unparse(n.ast, 0) and '!=' in unparse(n.ast, 0))]
-  raises = bool(chk) and any(isinstance(m.ast, ast.Raise) for m, lab in chk[0].succs if lab == 'T')
+  # a test comparing the number of converted values with the number of trial parameters, raising on the unequal side
+  chk = []
+  raises = False
+  for n in g.nodes:
+    if n.kind != 'test':
+      continue
+    t, neg = n.ast, False
+    while isinstance(t, ast.UnaryOp) and isinstance(t.op, ast.Not):
+      t, neg = t.operand, not neg
+    if isinstance(t, ast.Compare) and len(t.ops) == 1 and isinstance(t.ops[0], (ast.Eq, ast.NotEq)):
+      sides = [unparse(t.left, 0), unparse(t.comparators[0], 0)]
+      if all(x.startswith('len(') for x in sides) and any('.parameters' in x for x in sides):
+        unequal_label = 'T' if (isinstance(t.ops[0], ast.NotEq) != neg) else 'F'
+        chk.append(n)
+        raises = any(isinstance(m.ast, ast.Raise) for m, lab in n.succs if lab == unequal_label)
   rets = [p for p, _ in g.exit.preds]
   dom = g.dominators()
   ok3 = raises and all(chk[0].id in dom[r.id] for r in rets)
@@ -227,7 +239,7 @@ def run(ctx) -> None:
       if n.kind == 'stmt' and isinstance(n.ast, ast.Assign) and isinstance(n.ast.value, ast.Name) and n.ast.value.id in cvs:
         cvs |= {t.id for t in n.ast.targets if isinstance(t, ast.Name)}
   seen_dicts = {dotted(t.value) for n in g2.nodes if n.kind == 'stmt' and isinstance(n.ast, ast.Assign) for t in n.ast.targets
-                if isinstance(t, ast.Subscript) and unparse(t.slice, 0) in {f'{c}.name' for c in cvs} and dotted(t.value)
+                if isinstance(t, ast.Subscript) and unparse(flow.resolve_local(te.node, t.slice), 0) in {f'{c}.name' for c in cvs} and dotted(t.value)
                 and dotted(t.value) != 'external_values'}
   bad_parent = bad_match = None
   n_paths = 0
@@ -270,7 +282,7 @@ def run(ctx) -> None:
             'inactive children (parent value outside their matching values) are presented' +
             (f' (path with {bad_match[1]})' if bad_match else ''), construct='parent-match', func=te.qualname)
   okc = any(isinstance(c, ast.Call) and isinstance(c.func, ast.Attribute) and c.func.attr == 'cast'
-            and c.args and unparse(c.args[0], 0) in {f'{c_}.external_type' for c_ in cvs} for c in ast.walk(te.node))
+            and c.args and unparse(flow.resolve_local(te.node, c.args[0]), 0) in {f'{c_}.external_type' for c_ in cvs} for c in ast.walk(te.node))
   ctx.check(okc, 'R4', 'values cast with the parameter\'s external type', te.node, '.cast(pc.external_type)',
             'external values are not produced by ParameterValue.cast(pc.external_type)', construct='cast', func=te.qualname)
   # R5
@@ -315,6 +327,8 @@ def run(ctx) -> None:
     if isinstance(k, ast.Lambda) and len(k.args.args) == 1:
       a_ = k.args.args[0].arg
       return unparse(k.body, 0) == f'{a_}[{pos}]' or (fld is not None and unparse(k.body, 0) == f'{a_}.{fld}')
+    if isinstance(k, ast.Name) and k.id in pp.module.assigns:
+      k = pp.module.assigns[k.id]
     t_ = unparse(k, 0)
     return t_ == f'operator.itemgetter({pos})' or (fld is not None and t_ == f"operator.attrgetter('{fld}')")
   sort_ok = False
